@@ -309,6 +309,11 @@ class TreeToODE(lark.Transformer):
 
         # breakpoint()
 
+        # Assignments are collected in sets, and two assignments with the same
+        # name and the same dependencies (e.g two different constants) compare
+        # equal. Keep track of the definitions to not silently drop one of them
+        definitions: dict[tuple[str, str], atoms.Assignment] = {}
+
         comments = []
         for line in s:  # Each line in the block
             if isinstance(line, atoms.Comment):
@@ -321,6 +326,14 @@ class TreeToODE(lark.Transformer):
 
             for atom in line:  # State, Parameters or Assignment
                 for component in atom.components:
+                    if isinstance(atom, atoms.Assignment):
+                        previous = definitions.setdefault((component, atom.name), atom)
+                        if (
+                            previous.value is not None
+                            and atom.value is not None
+                            and previous.value.tree != atom.value.tree
+                        ):
+                            raise exceptions.DuplicateSymbolError({atom.name})
                     components[component][mapping[type(atom)]].add(atom)
 
         # Make sets frozen
